@@ -235,6 +235,7 @@ type Interp struct {
 	Fuel    int
 	Size    int
 	MapLoop bool // a for-in over a map with >= 2 keys was executed: trace order is not unique
+	Stdout  *strings.Builder // what printf() wrote (shared with callees)
 
 	scopes  []scope
 	exit    bool
@@ -249,7 +250,7 @@ type Interp struct {
 }
 
 func New(pt *Point) *Interp {
-	return &Interp{Opts: map[string]int{}, Touched: map[string]bool{}, Pt: pt, Fuel: 20000, Size: 1 << 20, File: "main.p"}
+	return &Interp{Opts: map[string]int{}, Touched: map[string]bool{}, Pt: pt, Fuel: 20000, Size: 1 << 20, File: "main.p", Stdout: &strings.Builder{}}
 }
 
 func (in *Interp) opt(row string) int {
@@ -1803,7 +1804,7 @@ func (in *Interp) use(n *gen.Node) (any, error) {
 		return nil, ErrUnsupported
 	}
 	sub := &Interp{V2: in.V2, Opts: in.Opts, Touched: in.Touched, Pt: in.Pt, Scripts: in.Scripts, File: n.Args[0].S,
-		Fuel: in.Fuel, Size: in.Size, Extra: in.Extra, depth: in.depth + 20}
+		Fuel: in.Fuel, Size: in.Size, Extra: in.Extra, depth: in.depth + 20, Stdout: in.Stdout}
 	sub.Trace = in.Trace
 	if sub.depth > 300 {
 		return nil, ErrFuel
@@ -1820,3 +1821,9 @@ func (in *Interp) use(n *gen.Node) (any, error) {
 	}
 	return Void, nil
 }
+
+// Errf lets builtin models raise a script error located at node.
+func (in *Interp) Errf(node *gen.Node, format string, args ...any) error { return in.errf(node, format, args...) }
+
+// Exit marks the current script as finished (exit()).
+func (in *Interp) Exit() { in.exit = true }
